@@ -45,60 +45,7 @@ func runC19(c *an.Ctx) {
 	c.Rule("R2 CAS: expected = value loaded in the same iteration; new = other + c, c >= 1, on a path with other >= loaded; failed CAS re-executes the load")
 	c.Rule("R3 no wrap: the CAS is dominated by other != MaxUint64 (or the new value saturates)")
 	c.Rule("R4 Increment returns the result of its single Add; Time returns a plain Load")
-	// R1
-	nW := 0
-	for _, fn := range c.P.Funcs {
-		an.Instrs(fn, func(in ssa.Instruction) {
-			call := an.CallOf(in)
-			if call == nil || len(call.Args) == 0 {
-				return
-			}
-			t, f, ok := an.FieldOf(call.Args[0])
-			if !ok || t != "LamportClock" || f != "counter" {
-				// the address may also escape: any other use of &x.counter is flagged below
-				return
-			}
-			callee := an.StaticCallee(call)
-			name := ""
-			if callee != nil {
-				name = an.CalleeName(callee)
-			}
-			switch name {
-			case "atomic.(*Uint64).Load":
-				return
-			case "atomic.(*Uint64).Add":
-				nW++
-				n, isC := an.ConstInt(call.Args[1])
-				c.Add(isC && n >= 1, "R1", "counter-writer:"+an.FuncName(fn)+":Add", in, "Add on the counter uses a constant increment >= 1", "constant argument")
-			case "atomic.(*Uint64).CompareAndSwap":
-				nW++
-				c.Add(an.FuncName(fn) == "(*LamportClock).Witness", "R1", "counter-writer:"+an.FuncName(fn)+":CAS", in, "CompareAndSwap on the counter only in Witness", "who-may-write")
-			default:
-				nW++
-				c.Add(false, "R1", "counter-writer:"+an.FuncName(fn)+":"+name, in, "the counter is modified through "+name+" (only Add(+c) and CompareAndSwap preserve monotonicity)", "")
-			}
-		})
-		// the counter's address must not be taken for anything but a direct atomic call
-		an.Instrs(fn, func(in ssa.Instruction) {
-			fa, ok := in.(*ssa.FieldAddr)
-			if !ok {
-				return
-			}
-			if t, f, ok := an.FieldOf(fa); !ok || t != "LamportClock" || f != "counter" {
-				return
-			}
-			for _, r := range *fa.Referrers() {
-				if cc := an.CallOf(r); cc != nil && len(cc.Args) > 0 && cc.Args[0] == ssa.Value(fa) {
-					continue
-				}
-				if _, dbg := r.(*ssa.DebugRef); dbg {
-					continue
-				}
-				c.Add(false, "R1", "counter-address-escapes:"+an.FuncName(fn), r, "the counter's address is used other than as the receiver of an atomic call", "")
-			}
-		})
-	}
-	c.Floor("R1", "modifying operations on LamportClock.counter", nW, 2)
+	counterWriters(c, "R1")
 
 	witnessRules(c, true)
 	// R4
@@ -193,6 +140,8 @@ func runC06(c *an.Ctx) {
 	c.Rule("R3 the query-response table is keyed by that same LTime")
 	c.Rule("R2' (shared with C19) Witness(v) returns only with the clock above v, so an originated time exceeds every time witnessed before the call")
 	witnessRules(c, false)
+	c.Rule("R3 (shared with C19) the clocks only move forward: the counter is modified by Add(+c) and by Witness's CompareAndSwap only — no roll-back of an allocated time")
+	counterWriters(c, "R3")
 	for _, k := range []struct{ method, msg, clock string }{{"UserEvent", "messageUserEvent", "eventClock"}, {"Query", "messageQuery", "queryClock"}} {
 		fn := sm(c, "R1", "Serf", k.method)
 		if fn == nil {
@@ -245,4 +194,62 @@ func runC06(c *an.Ctx) {
 		ok := len(enc) == 1 && len(nr) == 1 && an.Path(an.CallOf(enc[0]).Args[1]) == an.Path(an.CallOf(nr[0]).Args[1])
 		c.Add(ok, "R3", "Query:same-message", q, "the tracker is built from the very message that is encoded and broadcast", "access path")
 	}
+}
+
+// counterWriters decides who may modify LamportClock.counter and how (shared by C19.R1 and C06.R3: a
+// clock that can be set back hands out a time the node has already processed).
+func counterWriters(c *an.Ctx, rule string) {
+	nW := 0
+	for _, fn := range c.P.Funcs {
+		an.Instrs(fn, func(in ssa.Instruction) {
+			call := an.CallOf(in)
+			if call == nil || len(call.Args) == 0 {
+				return
+			}
+			t, f, ok := an.FieldOf(call.Args[0])
+			if !ok || t != "LamportClock" || f != "counter" {
+				// the address may also escape: any other use of &x.counter is flagged below
+				return
+			}
+			callee := an.StaticCallee(call)
+			name := ""
+			if callee != nil {
+				name = an.CalleeName(callee)
+			}
+			switch name {
+			case "atomic.(*Uint64).Load":
+				return
+			case "atomic.(*Uint64).Add":
+				nW++
+				n, isC := an.ConstInt(call.Args[1])
+				c.Add(isC && n >= 1, rule, "counter-writer:"+an.FuncName(fn)+":Add", in, "Add on the counter uses a constant increment >= 1", "constant argument")
+			case "atomic.(*Uint64).CompareAndSwap":
+				nW++
+				c.Add(an.FuncName(fn) == "(*LamportClock).Witness", rule, "counter-writer:"+an.FuncName(fn)+":CAS", in, "CompareAndSwap on the counter only in Witness", "who-may-write")
+			default:
+				nW++
+				c.Add(false, rule, "counter-writer:"+an.FuncName(fn)+":"+name, in, "the counter is modified through "+name+" (only Add(+c) and CompareAndSwap preserve monotonicity)", "")
+			}
+		})
+		// the counter's address must not be taken for anything but a direct atomic call
+		an.Instrs(fn, func(in ssa.Instruction) {
+			fa, ok := in.(*ssa.FieldAddr)
+			if !ok {
+				return
+			}
+			if t, f, ok := an.FieldOf(fa); !ok || t != "LamportClock" || f != "counter" {
+				return
+			}
+			for _, r := range *fa.Referrers() {
+				if cc := an.CallOf(r); cc != nil && len(cc.Args) > 0 && cc.Args[0] == ssa.Value(fa) {
+					continue
+				}
+				if _, dbg := r.(*ssa.DebugRef); dbg {
+					continue
+				}
+				c.Add(false, rule, "counter-address-escapes:"+an.FuncName(fn), r, "the counter's address is used other than as the receiver of an atomic call", "")
+			}
+		})
+	}
+	c.Floor(rule, "modifying operations on LamportClock.counter", nW, 2)
 }
